@@ -68,11 +68,11 @@ theorem names_inherited {api : Api} (hapi : apiWF api = true) {ns : Namespace} (
       have hsubP : P'.hasSubtypes = true := by
         simp only [isTreeMember, hpo, Bool.or_eq_true] at htree
         rcases htree with h | h
-        · have := (typeWF_subtypes_clause htw h).2.2
+        · have := (typeWF_subtypes_clause htw h).2
           rw [hpar] at this; exact absurd this (by simp)
         · exact h
       obtain ⟨preP, htwP⟩ := typeWF_mem hapi hnsP hmem
-      have hPpar := (typeWF_subtypes_clause htwP hsubP).2.2
+      have hPpar := (typeWF_subtypes_clause htwP hsubP).2
       have hPpo : api.parentOf P' = none := by simp [Api.parentOf, hPpar]
       have hxP : x ∈ P'.ownCallers := by
         rw [hpo] at hx'
